@@ -30,6 +30,10 @@ def closure(facts, kinds, taker):
                 for (s2, f2, o2) in F:
                     if f2 == f and s2 == o:
                         new.add((s, f, o2))
+            if f in ("attends", "chairs", "leads"):   # inverse Attendees (Chairs / Leads inherit get_inverse from Attends)
+                new.add((o, "attendees", s))
+            if f == "attendees":                      # inverse Attends: on the attendee, or on its role taker
+                new.add((taker.get(o, o), "attends", s))
             if f == "runs":                           # Runs < EmployedBy, both single-valued fields of one class
                 new.add((s, "employed_by", o))
             if f == "leads":                          # Leads < Chairs < Attends; the class has no field for the middle level
@@ -64,7 +68,7 @@ def observe_fields(om, named):
     raw = {}
     for n, o in named.items():
         if isinstance(o, om.Org):
-            fl = ("members", "sub_org_of", "part_of", "has_part", "wholly_owned_by")
+            fl = ("members", "sub_org_of", "part_of", "has_part", "wholly_owned_by", "attendees")
         elif isinstance(o, om.Person):
             fl = ("works_for", "member_of")
         elif isinstance(o, getattr(om, "Boss", ())):
